@@ -386,8 +386,9 @@ def judge_panel(ref, params, df, init, vf_list, *, tol=None, targets=None, judge
             for c in ref.choices:
                 g = ref.grid[c]
                 dist = np.min(np.abs(np.asarray(ch[c], dtype=float)[:, None] - g[None, :]), axis=1)
-                if np.any(dist[v] > 1e-9 * (1 + np.abs(g).max())):
-                    out["C02"].append({"key": "choice_off_grid", "what": f"period {t}: reported {c} is not a grid value for {int((dist[v] > 1e-9).sum())} agents"})
+                gtol = (1e-9 if bootstrap.X64 else 1e-5) * (1 + np.abs(g).max())  # single precision: grid values are float32
+                if np.any(dist[v] > gtol):
+                    out["C02"].append({"key": "choice_off_grid", "what": f"period {t}: reported {c} is not a grid value for {int((dist[v] > gtol).sum())} agents"})
             with np.errstate(all="ignore"):
                 Qr, okr = ref.q_at(st, ch, t, params, Vn)
             add("c02_rows_compared", int(v.sum()))
